@@ -39,7 +39,12 @@ Trees == {
   \* { a }  { b }   (two operations)
   Doc(<< Op(2, 0, SelSet(3, << Fld(4, 0, 5, <<>>) >>)), Op(6, 0, SelSet(7, << Fld(8, 0, 9, <<>>) >>)) >>),
   \* { a b c }
-  Doc(<< Op(2, 0, SelSet(3, << Fld(4, 0, 5, <<>>), Fld(6, 0, 7, <<>>), Fld(8, 0, 9, <<>>) >>)) >>)
+  Doc(<< Op(2, 0, SelSet(3, << Fld(4, 0, 5, <<>>), Fld(6, 0, 7, <<>>), Fld(8, 0, 9, <<>>) >>)) >>),
+  \* roots other than a document (visit() accepts any node): their children are single-valued fields
+  \* the field  x: a { b }
+  Fld(1, 2, 3, << SelSet(4, << Fld(5, 0, 6, <<>>) >>) >>),
+  \* the operation  query Q { a }
+  Op(1, 2, SelSet(3, << Fld(4, 0, 5, <<>>) >>))
 }
 RECURSIVE Ids(_)
 Ids(n) == {n.id} \cup UNION { UNION { Ids(n.fields[i].kids[j]) : j \in 1..Len(n.fields[i].kids) } : i \in 1..Len(n.fields) }
